@@ -1,4 +1,5 @@
 import ScnVerif.Lemmas.TofPhys
+import ScnVerif.Lemmas.C07Geometry
 /-!
 # C07 — kernels are unit-equivariant and keep the documented dtype contract
 
@@ -279,5 +280,460 @@ theorem model_dtype_is_abstract_time_at_sample (c p t L w : Val) :
 
 theorem model_dtype_is_abstract_Q_element (w e : Val) : (qElement w e).dty = qElement w.dty e.dty := by
   simp only [qElement, dty_mul, dty_div, dty_i64, dty_pi, dty_asFloatLike]
+
+/-! # Geometry, gravity, inelastic, cascade and Q-vector kernels
+
+The property speaks about every conversion *and* geometry kernel.  The kernels of `conversion/beamline.py`, the
+inelastic kernels, `propagate_times` and the Q-vector / hkl kernels are modelled by C03, C04, C05, C11 and C08
+(`Model/Beamline.lean`, `Model/Gravity.lean`, `Model/Inelastic.lean`, `Model/Cascade.lean`, `Model/QVec.lean`); the
+theorems below are about those definitions (not re-modelled here) and cite the theorems of those properties.
+Vectors: the same physical vector given in units `u` and `u'` is `u • b = u' • b'`. -/
+
+section geometry
+open ScnVerif.Beamline ScnVerif.Gravity ScnVerif.V3R ScnVerif.C07Geometry ScnVerif.Props.C04 Real
+
+/-! ## geometry kernels -/
+
+/-- `L1`: a beam given in another length unit (`u•b = u'•b'` is the same physical vector) has the same physical length -/
+theorem L1_unit_equivariant (u u' : ℝ) (hu : 0 < u) (hu' : 0 < u') (b b' : V3 ℝ)
+    (h : V3.smul u b = V3.smul u' b') : l1 b * u = l1 b' * u' := by
+  have e1 := norm_smul hu.le b
+  have e2 := norm_smul hu'.le b'
+  simp only [l1]
+  rw [mul_comm, ← e1, mul_comm (V3.norm b'), ← e2, h]
+
+theorem L2_unit_equivariant (u u' : ℝ) (hu : 0 < u) (hu' : 0 < u') (b b' : V3 ℝ)
+    (h : V3.smul u b = V3.smul u' b') : l2 b * u = l2 b' * u' := L1_unit_equivariant u u' hu hu' b b' h
+
+/-- `total_beam_length`, `total_straight_beam_length_no_scatter` and the whole scatter graph: positions in a unit of
+`s` metres ⇒ every length is multiplied by `s`, the angle does not change (C03 `scatter_graph_unit_scale`) -/
+theorem Ltotal_unit_equivariant (s : ℝ) (hs : 0 < s) (source sample position : V3 ℝ)
+    (h1 : sample ≠ source) (h2 : position ≠ sample) :
+    (scatterGraph (V3.smul s source) (V3.smul s sample) (V3.smul s position)).Ltotal
+        = s * (scatterGraph source sample position).Ltotal ∧
+    totalStraightNoScatter (V3.smul s source) (V3.smul s position) = s * totalStraightNoScatter source position := by
+  refine ⟨(C03.scatter_graph_unit_scale s hs source sample position h1 h2).2.2.1, ?_⟩
+  have e : V3.sub (V3.smul s position) (V3.smul s source) = V3.smul s (V3.sub position source) := by
+    simp only [V3.sub, V3.smul]; apply V3R.ext <;> ring
+  simp only [totalStraightNoScatter, e, norm_smul hs.le]
+
+/-- `two_theta`: each beam may come in its own length unit -/
+theorem two_theta_unit_equivariant (u1 u1' u2 u2' : ℝ) (h1 : 0 < u1) (h1' : 0 < u1') (h2 : 0 < u2) (h2' : 0 < u2')
+    (b1 b1' b2 b2' : V3 ℝ) (n1 : b1 ≠ zero) (n1' : b1' ≠ zero) (n2 : b2 ≠ zero) (n2' : b2' ≠ zero)
+    (e1 : V3.smul u1 b1 = V3.smul u1' b1') (e2 : V3.smul u2 b2 = V3.smul u2' b2') :
+    twoTheta b1 b2 = twoTheta b1' b2' := by
+  rw [← C03.two_theta_scale_left u1 h1 b1 b2 n1 n2,
+    ← C03.two_theta_scale_right u2 h2 _ b2 (smul_ne_zero h1.ne' n1) n2,
+    ← C03.two_theta_scale_left u1' h1' b1' b2' n1' n2',
+    ← C03.two_theta_scale_right u2' h2' _ b2' (smul_ne_zero h1'.ne' n1') n2', e1, e2]
+
+/-! ## gravity -/
+
+/-- `_drop_due_to_gravity`: distance in a unit of `ud` m, wavelength `ul` m, gravity `ug` m/s², the constant's unit
+`uc`, the wavelength converted as the code does — the physical drop does not depend on any of them -/
+theorem drop_due_to_gravity_unit_equivariant (c L2 L2' lam lam' : ℝ) (g g' : V3 ℝ) (ud ud' ul ul' ug ug' uc : ℝ)
+    (hd : 0 < ud) (hd' : 0 < ud') (hg : 0 < ug) (hg' : 0 < ug') (hc : 0 < uc)
+    (eL : L2 * ud = L2' * ud') (el : lam * ul = lam' * ul') (eg : V3.norm g * ug = V3.norm g' * ug') :
+    dropDueToGravity (Conv.id ℝ) c (ul / √(1 / (ud * (ug * uc)))) L2 lam g * ud
+      = dropDueToGravity (Conv.id ℝ) c (ul' / √(1 / (ud' * (ug' * uc)))) L2' lam' g' * ud' := by
+  rw [drop_def_units c L2 lam g ud ul ug uc hd hg hc, drop_def_units c L2' lam' g' ud' ul' ug' uc hd' hg' hc, eL, el, eg]
+
+/-- the gravity kernel in arbitrary units equals the documented construction evaluated on the physical (SI) vectors -/
+theorem gravity_generic_phys (c lam : ℝ) (b1 b2 g : V3 ℝ) (u1 ud ug ul uc : ℝ)
+    (h1 : 0 < u1) (hd : 0 < ud) (hgs : 0 < ug) (hc : 0 < uc)
+    (hg : g ≠ zero) (hb1 : b1 ≠ zero) (hz : Spec.zproj b1 g ≠ zero)
+    (hr : Spec.raised g b2 (Spec.delta c g (lam * (ul / √(1 / (ud * (ug * uc))))) (V3.norm b2)) ≠ zero) :
+    anglesGeneric (Conv.id ℝ) c (ul / √(1 / (ud * (ug * uc)))) (frame b1 g) b1 b2 lam g
+      = ⟨Spec.twoTheta (V3.smul u1 b1) (V3.smul ug g) (V3.smul ud b2)
+            (Spec.delta (c * uc) (V3.smul ug g) (lam * ul) (V3.norm (V3.smul ud b2))),
+         Spec.phi (V3.smul u1 b1) (V3.smul ug g) (V3.smul ud b2)
+            (Spec.delta (c * uc) (V3.smul ug g) (lam * ul) (V3.norm (V3.smul ud b2)))⟩ := by
+  rw [generic_eq_spec c _ lam b1 b2 g hg hb1 hr]
+  have hδ : Spec.delta (c * uc) (V3.smul ug g) (lam * ul) (V3.norm (V3.smul ud b2))
+      = ud * Spec.delta c g (lam * (ul / √(1 / (ud * (ug * uc))))) (V3.norm b2) := by
+    have := drop_def_units c (V3.norm b2) lam g ud ul ug uc hd hgs hc
+    rw [drop_def] at this
+    rw [mul_comm ud, this, Spec.delta, norm_smul hgs.le, norm_smul hd.le]; ring
+  rw [hδ]
+  obtain ⟨e1, e2⟩ := spec_scale h1 hd hgs b1 b2 g _ hg hb1 hz hr
+  rw [e1, e2]
+
+/-- `scattering_angles_with_gravity` (general path): beams, wavelength and gravity in any units -/
+theorem gravity_angles_unit_equivariant (c lam lam' : ℝ) (b1 b1' b2 b2' g g' : V3 ℝ)
+    (u1 u1' ud ud' ug ug' ul ul' uc : ℝ)
+    (h1 : 0 < u1) (h1' : 0 < u1') (hd : 0 < ud) (hd' : 0 < ud') (hgs : 0 < ug) (hgs' : 0 < ug') (hc : 0 < uc)
+    (hg : g ≠ zero) (hg' : g' ≠ zero) (hb1 : b1 ≠ zero) (hb1' : b1' ≠ zero)
+    (hz : Spec.zproj b1 g ≠ zero) (hz' : Spec.zproj b1' g' ≠ zero)
+    (hr : Spec.raised g b2 (Spec.delta c g (lam * (ul / √(1 / (ud * (ug * uc))))) (V3.norm b2)) ≠ zero)
+    (hr' : Spec.raised g' b2' (Spec.delta c g' (lam' * (ul' / √(1 / (ud' * (ug' * uc))))) (V3.norm b2')) ≠ zero)
+    (e1 : V3.smul u1 b1 = V3.smul u1' b1') (e2 : V3.smul ud b2 = V3.smul ud' b2')
+    (eg : V3.smul ug g = V3.smul ug' g') (el : lam * ul = lam' * ul') :
+    anglesGeneric (Conv.id ℝ) c (ul / √(1 / (ud * (ug * uc)))) (frame b1 g) b1 b2 lam g
+      = anglesGeneric (Conv.id ℝ) c (ul' / √(1 / (ud' * (ug' * uc)))) (frame b1' g') b1' b2' lam' g' := by
+  rw [gravity_generic_phys c lam b1 b2 g u1 ud ug ul uc h1 hd hgs hc hg hb1 hz hr,
+    gravity_generic_phys c lam' b1' b2' g' u1' ud' ug' ul' uc h1' hd' hgs' hc hg' hb1' hz' hr', e1, e2, eg, el]
+
+/-- optimised path (incident beam perpendicular to gravity): same physical construction -/
+theorem gravity_orthogonal_phys (c lam : ℝ) (b1 b2 g : V3 ℝ) (u1 ud ug ul uc : ℝ)
+    (h1 : 0 < u1) (hd : 0 < ud) (hgs : 0 < ug) (hc : 0 < uc)
+    (hg : g ≠ zero) (hb1 : b1 ≠ zero) (hperp : V3.dot g b1 = 0)
+    (hr : Spec.raised g b2 (Spec.delta c g (lam * (ul / √(1 / (ud * (ug * uc))))) (V3.norm b2)) ≠ zero) :
+    anglesOrthogonal (Conv.id ℝ) c (ul / √(1 / (ud * (ug * uc)))) (frame b1 g) b2 lam g
+      = ⟨Spec.twoTheta (V3.smul u1 b1) (V3.smul ug g) (V3.smul ud b2)
+            (Spec.delta (c * uc) (V3.smul ug g) (lam * ul) (V3.norm (V3.smul ud b2))),
+         Spec.phi (V3.smul u1 b1) (V3.smul ug g) (V3.smul ud b2)
+            (Spec.delta (c * uc) (V3.smul ug g) (lam * ul) (V3.norm (V3.smul ud b2)))⟩ := by
+  have hz : Spec.zproj b1 g ≠ zero := by rw [zproj_of_perp hperp]; exact hb1
+  rw [orthogonal_eq_spec c _ lam b1 b2 g hg hb1 hperp hr]
+  have hδ : Spec.delta (c * uc) (V3.smul ug g) (lam * ul) (V3.norm (V3.smul ud b2))
+      = ud * Spec.delta c g (lam * (ul / √(1 / (ud * (ug * uc))))) (V3.norm b2) := by
+    have := drop_def_units c (V3.norm b2) lam g ud ul ug uc hd hgs hc
+    rw [drop_def] at this
+    rw [mul_comm ud, this, Spec.delta, norm_smul hgs.le, norm_smul hd.le]; ring
+  rw [hδ]
+  obtain ⟨e1, e2⟩ := spec_scale h1 hd hgs b1 b2 g _ hg hb1 hz hr
+  rw [e1, e2]
+
+/-- `scattering_angles_with_gravity` (optimised path, incident beams perpendicular to gravity): unit independent -/
+theorem gravity_orthogonal_unit_equivariant (c lam lam' : ℝ) (b1 b1' b2 b2' g g' : V3 ℝ)
+    (u1 u1' ud ud' ug ug' ul ul' uc : ℝ)
+    (h1 : 0 < u1) (h1' : 0 < u1') (hd : 0 < ud) (hd' : 0 < ud') (hgs : 0 < ug) (hgs' : 0 < ug') (hc : 0 < uc)
+    (hg : g ≠ zero) (hg' : g' ≠ zero) (hb1 : b1 ≠ zero) (hb1' : b1' ≠ zero)
+    (hperp : V3.dot g b1 = 0) (hperp' : V3.dot g' b1' = 0)
+    (hr : Spec.raised g b2 (Spec.delta c g (lam * (ul / √(1 / (ud * (ug * uc))))) (V3.norm b2)) ≠ zero)
+    (hr' : Spec.raised g' b2' (Spec.delta c g' (lam' * (ul' / √(1 / (ud' * (ug' * uc))))) (V3.norm b2')) ≠ zero)
+    (e1 : V3.smul u1 b1 = V3.smul u1' b1') (e2 : V3.smul ud b2 = V3.smul ud' b2')
+    (eg : V3.smul ug g = V3.smul ug' g') (el : lam * ul = lam' * ul') :
+    anglesOrthogonal (Conv.id ℝ) c (ul / √(1 / (ud * (ug * uc)))) (frame b1 g) b2 lam g
+      = anglesOrthogonal (Conv.id ℝ) c (ul' / √(1 / (ud' * (ug' * uc)))) (frame b1' g') b2' lam' g' := by
+  rw [gravity_orthogonal_phys c lam b1 b2 g u1 ud ug ul uc h1 hd hgs hc hg hb1 hperp hr,
+    gravity_orthogonal_phys c lam' b1' b2' g' u1' ud' ug' ul' uc h1' hd' hgs' hc hg' hb1' hperp' hr', e1, e2, eg, el]
+
+/-- `scattering_angle_in_yz_plane` in arbitrary units: `atan2(|y_d + δ|, z_d)` of the physical vectors -/
+theorem gravity_yz_phys (c lam : ℝ) (b1 b2 g : V3 ℝ) (u1 ud ug ul uc : ℝ)
+    (h1 : 0 < u1) (hd : 0 < ud) (hgs : 0 < ug) (hc : 0 < uc) (hg : g ≠ zero) (hz : Spec.zproj b1 g ≠ zero) :
+    angleYZ (Conv.id ℝ) c (ul / √(1 / (ud * (ug * uc)))) (frame b1 g) b2 lam g
+      = Complex.arg ⟨V3.dot (V3.smul ud b2) (Spec.ez (V3.smul u1 b1) (V3.smul ug g)),
+          |V3.dot (V3.smul ud b2) (Spec.ey (V3.smul ug g))
+            + Spec.delta (c * uc) (V3.smul ug g) (lam * ul) (V3.norm (V3.smul ud b2))|⟩ := by
+  rw [yz_def]
+  have hδ : Spec.delta (c * uc) (V3.smul ug g) (lam * ul) (V3.norm (V3.smul ud b2))
+      = ud * Spec.delta c g (lam * (ul / √(1 / (ud * (ug * uc))))) (V3.norm b2) := by
+    have := drop_def_units c (V3.norm b2) lam g ud ul ug uc hd hgs hc
+    rw [drop_def] at this
+    rw [mul_comm ud, this, Spec.delta, norm_smul hgs.le, norm_smul hd.le]; ring
+  rw [hδ, ez_smul h1 hgs b1 g hg hz, ey_smul ug hgs g hg, dot_smul_left, dot_smul_left, ← mul_add, abs_mul,
+    abs_of_pos hd, arg_scale hd]
+
+theorem gravity_yz_unit_equivariant (c lam lam' : ℝ) (b1 b1' b2 b2' g g' : V3 ℝ)
+    (u1 u1' ud ud' ug ug' ul ul' uc : ℝ)
+    (h1 : 0 < u1) (h1' : 0 < u1') (hd : 0 < ud) (hd' : 0 < ud') (hgs : 0 < ug) (hgs' : 0 < ug') (hc : 0 < uc)
+    (hg : g ≠ zero) (hg' : g' ≠ zero) (hz : Spec.zproj b1 g ≠ zero) (hz' : Spec.zproj b1' g' ≠ zero)
+    (e1 : V3.smul u1 b1 = V3.smul u1' b1') (e2 : V3.smul ud b2 = V3.smul ud' b2')
+    (eg : V3.smul ug g = V3.smul ug' g') (el : lam * ul = lam' * ul') :
+    angleYZ (Conv.id ℝ) c (ul / √(1 / (ud * (ug * uc)))) (frame b1 g) b2 lam g
+      = angleYZ (Conv.id ℝ) c (ul' / √(1 / (ud' * (ug' * uc)))) (frame b1' g') b2' lam' g' := by
+  rw [gravity_yz_phys c lam b1 b2 g u1 ud ug ul uc h1 hd hgs hc hg hz,
+    gravity_yz_phys c lam' b1' b2' g' u1' ud' ug' ul' uc h1' hd' hgs' hc hg' hz', e1, e2, eg, el]
+
+
+/-- non-vacuity of the gravity hypotheses (C04's instance: gravity along −y, incident beam tilted by 45°, detector
+along x) together with a second unit system: metres vs centimetres -/
+example : V3.smul (1 : ℝ) (⟨0, 1, 1⟩ : V3 ℝ) = V3.smul (1e-2 : ℝ) ⟨0, 100, 100⟩ ∧ (⟨0, 1, 1⟩ : V3 ℝ) ≠ zero ∧
+    (⟨0, -1, 0⟩ : V3 ℝ) ≠ zero := by
+  refine ⟨?_, ?_, ?_⟩
+  · simp only [V3.smul]; apply V3R.ext <;> norm_num
+  · intro e; have := congrArg V3.z e; simp [zero] at this
+  · intro e; have := congrArg V3.y e; simp [zero] at this
+
+/-- non-vacuity of `L1_unit_equivariant`: (3,4,0) m is (300,400,0) cm -/
+example : l1 (⟨3, 4, 0⟩ : V3 ℝ) * 1 = l1 (⟨300, 400, 0⟩ : V3 ℝ) * 1e-2 :=
+  L1_unit_equivariant 1 1e-2 (by norm_num) (by norm_num) _ _ (by simp only [V3.smul]; apply V3R.ext <;> norm_num)
+
+end geometry
+
+section inelastic
+open ScnVerif.Inelastic
+
+/-- `energy_transfer_direct_from_tof`: tof, L1, L2 and the energy in any units give the same physical result — NaN in
+both unit systems or the same energy (C05 `direct_unit_independent`, with the folded constant `m_n/2` converted as the
+code does) -/
+theorem energy_transfer_direct_unit_equivariant
+    (m sE st sL1 sL2 tof L1 L2 Ei sE' st' sL1' sL2' tof' L1' L2' Ei' : ℝ)
+    (hm : 0 < m) (hsE : 0 < sE) (hst : 0 < st) (hsL1 : 0 < sL1) (hsL2 : 0 < sL2) (hEi : 0 < Ei)
+    (hsE' : 0 < sE') (hst' : 0 < st') (hsL1' : 0 < sL1') (hsL2' : 0 < sL2') (hEi' : 0 < Ei')
+    (ht : tof * st = tof' * st') (h1 : L1 * sL1 = L1' * sL1') (h2 : L2 * sL2 = L2' * sL2')
+    (hE : Ei * sE = Ei' * sE') :
+    (directFromUnits (m / 2) sE st sL1 sL2 tof L1 L2 Ei).map (· * sE)
+      = (directFromUnits (m / 2) sE' st' sL1' sL2' tof' L1' L2' Ei').map (· * sE') :=
+  Props.C05.direct_unit_independent m sE st sL1 sL2 tof L1 L2 Ei sE' st' sL1' sL2' tof' L1' L2' Ei'
+    hm hsE hst hsL1 hsL2 hEi hsE' hst' hsL1' hsL2' hEi' ht h1 h2 hE
+
+/-- `energy_transfer_indirect_from_tof` (C05 `indirect_unit_independent`) -/
+theorem energy_transfer_indirect_unit_equivariant
+    (m sE st sL1 sL2 tof L1 L2 Ef sE' st' sL1' sL2' tof' L1' L2' Ef' : ℝ)
+    (hm : 0 < m) (hsE : 0 < sE) (hst : 0 < st) (hsL1 : 0 < sL1) (hsL2 : 0 < sL2) (hEf : 0 < Ef)
+    (hsE' : 0 < sE') (hst' : 0 < st') (hsL1' : 0 < sL1') (hsL2' : 0 < sL2') (hEf' : 0 < Ef')
+    (ht : tof * st = tof' * st') (h1 : L1 * sL1 = L1' * sL1') (h2 : L2 * sL2 = L2' * sL2')
+    (hE : Ef * sE = Ef' * sE') :
+    (indirectFromUnits (m / 2) sE st sL1 sL2 tof L1 L2 Ef).map (· * sE)
+      = (indirectFromUnits (m / 2) sE' st' sL1' sL2' tof' L1' L2' Ef').map (· * sE') :=
+  Props.C05.indirect_unit_independent m sE st sL1 sL2 tof L1 L2 Ef sE' st' sL1' sL2' tof' L1' L2' Ef'
+    hm hsE hst hsL1 hsL2 hEf hsE' hst' hsL1' hsL2' hEf' ht h1 h2 hE
+
+end inelastic
+
+section cascade
+/-! ## propagate_times -/
+open ScnVerif.Cascade in
+/-- `propagate_times` with the folded conversion factor the code computes: `(wavelength·m_n/h).to('s/m')` multiplies by
+`sW` (metres per wavelength unit), `(distance · …).to(time.unit)` by `sD/sT`: the result, as a physical time, is
+`t + d·λ·m_n/h` -/
+theorem propagate_times_phys (mn h sW sD sT t w d : ℝ) (hh : h ≠ 0) (hT : sT ≠ 0) :
+    propagateTimes ⟨mn, h, sW * (sD / sT)⟩ t w d * sT = t * sT + (d * sD) * (w * sW) * mn / h := by
+  simp only [propagateTimes]; field_simp
+
+open ScnVerif.Cascade in
+theorem propagate_times_unit_equivariant (mn h sW sW' sD sD' sT sT' t t' w w' d d' : ℝ) (hh : h ≠ 0)
+    (hT : sT ≠ 0) (hT' : sT' ≠ 0) (et : t * sT = t' * sT') (ew : w * sW = w' * sW') (ed : d * sD = d' * sD') :
+    propagateTimes ⟨mn, h, sW * (sD / sT)⟩ t w d * sT = propagateTimes ⟨mn, h, sW' * (sD' / sT')⟩ t' w' d' * sT' := by
+  rw [propagate_times_phys mn h sW sD sT t w d hh hT, propagate_times_phys mn h sW' sD' sT' t' w' d' hh hT', et, ew, ed]
+
+
+/-- non-vacuity: 1 ms, 2 Å, 3 m  =  1000 µs, 0.2 nm, 300 cm -/
+example : Cascade.propagateTimes ⟨(1.67e-27 : ℝ), 6.63e-34, 1e-10 * (1 / 1e-3)⟩ 1 2 3 * 1e-3
+    = Cascade.propagateTimes ⟨1.67e-27, 6.63e-34, 1e-9 * (1e-2 / 1e-6)⟩ 1000 0.2 300 * 1e-6 := by
+  apply propagate_times_unit_equivariant <;> norm_num
+
+end cascade
+
+section qvec
+open ScnVerif.QVec ScnVerif.Lemmas.QVec Real
+
+open ScnVerif.QVec ScnVerif.Lemmas.QVec in
+/-- the whole vector of `Q_elements_from_wavelength`: wavelength and both beams in any units -/
+theorem Q_elements_unit_equivariant (sW sW' lam lam' a a' b b' : ℝ) (bi bi' bf bf' : V3 ℝ)
+    (hW : 0 < sW) (hW' : 0 < sW') (hl : 0 < lam) (hl' : 0 < lam')
+    (ha : 0 < a) (ha' : 0 < a') (hb : 0 < b) (hb' : 0 < b')
+    (hi : 0 < V3.norm bi) (hi' : 0 < V3.norm bi') (hf : 0 < V3.norm bf) (hf' : 0 < V3.norm bf')
+    (el : lam * sW = lam' * sW') (ei : V3.smul a bi = V3.smul a' bi') (ef : V3.smul b bf = V3.smul b' bf') :
+    V3.smul (1 / sW) (qElements lam bi bf) = V3.smul (1 / sW') (qElements lam' bi' bf') := by
+  have key : ∀ (s l : ℝ) (x y : V3 ℝ), 0 < s → 0 < l →
+      V3.smul (1 / s) (qElements l x y) = V3.smul (2 * Real.pi / (l * s)) (V3.sub (V3.normalize x) (V3.normalize y)) := by
+    intro s l x y hs hl
+    rw [Props.C08.Qvec_def]
+    simp only [V3.smul]; apply V3R.ext <;> field_simp
+  rw [← Props.C08.Qvec_beam_length_invariant lam a b bi bf ha hb hi hf,
+    ← Props.C08.Qvec_beam_length_invariant lam' a' b' bi' bf' ha' hb' hi' hf', key _ _ _ _ hW hl, key _ _ _ _ hW' hl',
+    el, ei, ef]
+
+/-- a matrix in another unit: every entry multiplied by `a` -/
+def m3scale (a : ℝ) (m : M3 ℝ) : M3 ℝ :=
+  ⟨a * m.a11, a * m.a12, a * m.a13, a * m.a21, a * m.a22, a * m.a23, a * m.a31, a * m.a32, a * m.a33⟩
+
+theorem det_mul_scale (a : ℝ) (r ub : M3 ℝ) : M3.det (M3.mul r (m3scale a ub)) = a ^ 3 * M3.det (M3.mul r ub) := by
+  simp only [M3.det, M3.mul, m3scale, M3.c00, M3.c10, M3.c20]; ring
+
+/-- `hkl_vec_from_Q_vec`: Q and UB are both inverse lengths; re-expressing both in another inverse-length unit
+(factor `a > 0`) does not change the (dimensionless) hkl -/
+theorem hkl_unit_equivariant (a : ℝ) (ha : 0 < a) (q : V3 ℝ) (ub r : M3 ℝ) (hd : M3.det (M3.mul r ub) ≠ 0) :
+    hklVecFromQVec (V3.smul a q) (m3scale a ub) r = hklVecFromQVec q ub r := by
+  have hd' : M3.det (M3.mul r (m3scale a ub)) ≠ 0 := by rw [det_mul_scale]; positivity
+  have hp := twoPi_pos
+  simp only [hklVecFromQVec, M3.inv, det_mul_scale]
+  generalize hD : M3.det (M3.mul r ub) = D at hd
+  simp only [M3.mulVec, M3.mul, m3scale, M3.c00, M3.c10, M3.c20, V3.sdiv, V3.smul]
+  apply V3R.ext <;> field_simp
+
+end qvec
+
+section units
+open ScnVerif.C07Geometry ScnVerif.C07Geometry.U Real
+
+/-! ## documented output units, replayed in the unit algebra
+
+`U` = (SI scale, dimension).  Each theorem replays the unit computation the kernel performs (the unit the constant is
+converted to, then the arithmetic of the return expression) for **arbitrary** input unit scales and concludes that the
+result unit is the documented one — scale (by `field_simp`) and dimension (by `rfl` on the exponent vector). -/
+variable (sA sE sL sL1 sL2 sT sW sD sG : ℝ)
+
+/-- `wavelength_from_tof`: `c` is converted to `Å·unit(L)/unit(t)`; the result `c / L * t` comes in ångström whatever
+the units of tof and Ltotal -/
+theorem wavelength_from_tof_out_unit (hL : sL ≠ 0) (hT : sT ≠ 0) :
+    (lengthU sA * lengthU sL / timeU sT) / lengthU sL * timeU sT = lengthU sA := by
+  apply U.ext'
+  · show sA * sL / sT / sL * sT = sA
+    field_simp
+  · rfl
+
+
+theorem dspacing_from_tof_out_unit (hA : sA ≠ 0) (hL : sL ≠ 0) (hT : sT ≠ 0) :
+    U.one / ((timeU sT / lengthU sA / lengthU sL) * lengthU sL * plainU 1) * timeU sT = lengthU sA := by
+  apply U.ext'
+  · show 1 / (sT / sA / sL * sL * 1) * sT = sA
+    field_simp
+  · rfl
+
+theorem energy_from_tof_out_unit (hL : sL ≠ 0) (hT : sT ≠ 0) :
+    energyU sE * U.sq (timeU sT / lengthU sL) * U.sq (lengthU sL) / U.sq (timeU sT) = energyU sE := by
+  apply U.ext'
+  · show sE * (sT / sL * (sT / sL)) * (sL * sL) / (sT * sT) = sE
+    field_simp
+  · rfl
+
+theorem energy_from_wavelength_out_unit (hW : sW ≠ 0) :
+    energyU sE * U.sq (lengthU sW) / U.sq (lengthU sW) = energyU sE := by
+  apply U.ext'
+  · show sE * (sW * sW) / (sW * sW) = sE
+    field_simp
+  · rfl
+
+theorem wavelength_from_energy_out_unit (hA : 0 < sA) (hE : sE ≠ 0) :
+    U.sqrt (U.sq (lengthU sA) * energyU sE / energyU sE) = lengthU sA := by
+  apply U.ext'
+  · show √(sA * sA * sE / sE) = sA
+    rw [mul_div_assoc, div_self hE, mul_one, Real.sqrt_mul_self hA.le]
+  · rfl
+
+theorem Q_from_wavelength_out_unit : plainU 1 * plainU 1 / lengthU sW = U.one / lengthU sW := by
+  apply U.ext'
+  · show 1 * 1 / sW = 1 / sW
+    ring
+  · rfl
+
+/-- `wavelength_from_Q` converts explicitly to ångström; the conversion is legal because `1/unit(Q)` is a length -/
+theorem wavelength_from_Q_convertible (sQ : ℝ) : (plainU 1 / (U.one / lengthU sQ)).dim = (lengthU sA).dim := rfl
+
+theorem dspacing_from_wavelength_out_unit (hW : sW ≠ 0) :
+    (lengthU sA / lengthU sW) * lengthU sW / plainU 1 = lengthU sA := by
+  apply U.ext'
+  · show sA / sW * sW / 1 = sA
+    field_simp
+  · rfl
+
+theorem dspacing_from_energy_out_unit (hA : 0 < sA) (hE : sE ≠ 0) :
+    U.sqrt (U.sq (lengthU sA) * energyU sE / energyU sE) / plainU 1 = lengthU sA := by
+  apply U.ext'
+  · show √(sA * sA * sE / sE) / 1 = sA
+    rw [mul_div_assoc, div_self hE, mul_one, Real.sqrt_mul_self hA.le, div_one]
+  · rfl
+
+theorem time_at_sample_out_unit (hA : sA ≠ 0) (hL : sL ≠ 0) :
+    lengthU sL * lengthU sA / (lengthU sA * lengthU sL / timeU sT) = timeU sT := by
+  apply U.ext'
+  · show sL * sA / (sA * sL / sT) = sT
+    field_simp
+  · rfl
+
+/-- `L1`, `L2`, `Ltotal`: `norm` = `sqrt(b·b)` keeps the unit of the beam -/
+theorem L_out_unit (hL : 0 < sL) : U.sqrt (U.sq (lengthU sL)) = lengthU sL := by
+  apply U.ext'
+  · show √(sL * sL) = sL
+    exact Real.sqrt_mul_self hL.le
+  · rfl
+
+/-- `two_theta`, `phi`, `gamma`: both arguments of `atan2` carry the same length unit (normalised beams are
+dimensionless; `drop` comes in the unit of the scattered beam, see `drop_out_unit`), the result is in radians -/
+theorem angle_out_unit (hL : sL ≠ 0) : lengthU sL / lengthU sL = U.one := by
+  apply U.ext'
+  · show sL / sL = 1
+    exact div_self hL
+  · rfl
+
+/-- `_drop_due_to_gravity`: `const` has the unit of `|g|·m_n²/h²`; the wavelength is converted to
+`sqrt(1/(unit(distance)·unit(const)))` (a length); `λ²·const·distance²` comes in the unit of the distance -/
+theorem drop_out_unit (hD : 0 < sD) (hG : 0 < sG) :
+    let uconst : U := accelU sG * (U.sq ⟨1, Dim.massD⟩ / U.sq ⟨1, Dim.action⟩)
+    let uw := U.sqrt (U.one / (lengthU sD * uconst))
+    uw.dim = Dim.length ∧ U.sq uw * uconst * U.sq (lengthU sD) = lengthU sD := by
+  intro uconst uw
+  refine ⟨rfl, ?_⟩
+  apply U.ext'
+  · show √(1 / (sD * (sG * (1 * 1 / (1 * 1))))) * √(1 / (sD * (sG * (1 * 1 / (1 * 1))))) * (sG * (1 * 1 / (1 * 1))) * (sD * sD) = sD
+    rw [Real.mul_self_sqrt (by positivity)]
+    field_simp
+  · rfl
+
+/-- inelastic kernels: `t0 = L·sqrt(c/E)` is a time in the unit of tof, the result an energy in the unit of `E` -/
+theorem energy_transfer_out_unit (hE : sE ≠ 0) (hT : 0 < sT) (hL1 : 0 < sL1) (hL2 : sL2 ≠ 0) :
+    lengthU sL1 * U.sqrt (energyU sE * U.sq (timeU sT / lengthU sL1) / energyU sE) = timeU sT ∧
+    energyU sE * U.sq (timeU sT / lengthU sL2) * U.sq (lengthU sL2) / U.sq (timeU sT) = energyU sE := by
+  constructor
+  · apply U.ext'
+    · show sL1 * √(sE * (sT / sL1 * (sT / sL1)) / sE) = sT
+      have e : sE * (sT / sL1 * (sT / sL1)) / sE = (sT / sL1) * (sT / sL1) := by field_simp
+      rw [e, Real.sqrt_mul_self (by positivity)]
+      field_simp
+    · rfl
+  · exact energy_from_tof_out_unit sE sL2 sT hL2 hT.ne'
+
+/-- `propagate_times`: `distance · (s/m)` is a time, so the explicit conversion to `time.unit` is legal; the result
+carries `time.unit` -/
+theorem propagate_times_convertible : (lengthU sD * (timeU 1 / lengthU 1)).dim = (timeU sT).dim := rfl
+
+
+end units
+
+section dtypes
+/-! ## dtype table over the models of the other properties -/
+open ScnVerif.Cascade in
+theorem propagate_times_dtype (tk : Chopper TV → Bool) (k : Consts TV) (t w d : TV)
+    (h1 : k.mn.dt = .f64) (h2 : k.h.dt = .f64) (h3 : k.s.dt = .f64) :
+    (propagateTimesH (hooksTV tk) k t w d).dt
+      = if t.dt = .f32 ∧ w.dt = .f32 ∧ d.dt = .f32 then .f32 else .f64 := by
+  obtain ⟨mn, h, s⟩ := k
+  obtain ⟨dmn, vmn⟩ := mn; obtain ⟨dh, vh⟩ := h; obtain ⟨ds, vs⟩ := s
+  obtain ⟨dt, vt⟩ := t; obtain ⟨dw, vw⟩ := w; obtain ⟨dd, vd⟩ := d
+  simp only at h1 h2 h3
+  subst h1 h2 h3
+  cases dt <;> cases dw <;> cases dd <;> rfl
+
+open ScnVerif.Gravity in
+/-- **the dtype contract of every kernel, one table.**  Elastic kernels, `time_at_sample_from_tof` and
+`Q_elements_from_wavelength`: abstract dtype evaluation of this file's model.  Inelastic kernels: C05's
+`energyTransferDType` (= `_common_dtype(energy, tof)`).  Q-vector components: C08's `qResultDType`.
+`propagate_times`: C11's typed carrier `TV` with `hooksTV` (float32 iff time, wavelength and distance are all float32).
+Gravity kernels: in `Model/Gravity.lean` the result lives in the carrier `β` of the wavelength *by typing* — the last
+four conjuncts instantiate that at the two carriers the driver runs (`Float32` for a float32 wavelength, `Float` for
+everything else, into which `float_dtype` promotes the integers). -/
+theorem all_kernels_dtype_contract :
+    -- elastic kernels of conversion/tof.py (data operand decides)
+    (∀ dt dL, dt ≠ DTy.err → dL ≠ DTy.err →
+      wavelengthFromTof (cWavelengthFromTof DTy.f64 .f64 .f64 .f64 .f64) dt dL = DTy.floatDType dt) ∧
+    (∀ dt dL dθ, dt ≠ DTy.err → dL ≠ DTy.err → dθ ≠ DTy.err →
+      dspacingFromTof (cDspacingFromTof DTy.f64 .f64 .f64 .f64 .f64) .f64 dt dL dθ = DTy.floatDType dt) ∧
+    (∀ de, de ≠ DTy.err → wavelengthFromEnergy (cWavelengthFromEnergy DTy.f64 .f64 .f64 .f64 de) de = DTy.floatDType de) ∧
+    (∀ dw dθ, dw ≠ DTy.err → dθ ≠ DTy.err → qFromWavelength DTy.f64 dw dθ = DTy.floatDType dw) ∧
+    (∀ dq dθ, dq ≠ DTy.err → dθ ≠ DTy.err → wavelengthFromQ DTy.f64 .f64 .f64 dq dθ = DTy.floatDType dq) ∧
+    (∀ dw dθ, dw ≠ DTy.err → dθ ≠ DTy.err →
+      dspacingFromWavelength (cDspacingFromWavelength DTy.f64 .f64 dw) .f64 dw dθ = DTy.floatDType dw) ∧
+    (∀ de dθ, de ≠ DTy.err → dθ ≠ DTy.err →
+      dspacingFromEnergy (cDspacingFromEnergy DTy.f64 .f64 .f64 .f64 de) .f64 de dθ = DTy.floatDType de) ∧
+    (∀ dw, dw ≠ DTy.err → qElement dw DTy.f64 = DTy.floatDType dw) ∧
+    -- inelastic kernels (C05): float32 iff energy and tof are both float32, never an integer, lengths irrelevant
+    (∀ e t l1 l2, (Inelastic.energyTransferDType e t l1 l2 = .f32 ↔ e = .f32 ∧ t = .f32) ∧
+      (Inelastic.energyTransferDType e t l1 l2 = .f32 ∨ Inelastic.energyTransferDType e t l1 l2 = .f64)) ∧
+    -- Q vector (C08): float_dtype(wavelength)
+    (∀ w, (QVec.qResultDType w = .f32 ↔ w = .f32) ∧ (w ≠ .f32 → QVec.qResultDType w = .f64)) ∧
+    -- propagate_times (C11 typed carrier)
+    (∀ (tk : Cascade.Chopper Cascade.TV → Bool) (k : Cascade.Consts Cascade.TV) (t w d : Cascade.TV),
+      k.mn.dt = .f64 → k.h.dt = .f64 → k.s.dt = .f64 →
+      (Cascade.propagateTimesH (Cascade.hooksTV tk) k t w d).dt
+        = if t.dt = .f32 ∧ w.dt = .f32 ∧ d.dt = .f32 then .f32 else .f64) ∧
+    -- gravity kernels (C04): result in the wavelength's carrier
+    (∀ (c s d : Float) (w : Float32) (g : V3 Float), ∃ r : Float32, dropDueToGravity Conv.f32 c s d w g = r) ∧
+    (∀ (c s d : Float) (w : Float) (g : V3 Float), ∃ r : Float, dropDueToGravity (Conv.id Float) c s d w g = r) ∧
+    (∀ (c s : Float) (fr : Frame Float) (b1 b2 g : V3 Float) (w : Float32),
+      ∃ r : Angles Float32, anglesGeneric Conv.f32 c s fr b1 b2 w g = r) ∧
+    (∀ (c s : Float) (fr : Frame Float) (b2 g : V3 Float) (w : Float32),
+      ∃ r : Float32, angleYZ Conv.f32 c s fr b2 w g = r) :=
+  ⟨wavelength_from_tof_dtype, dspacing_from_tof_dtype, wavelength_from_energy_dtype, Q_from_wavelength_dtype,
+    wavelength_from_Q_dtype, dspacing_from_wavelength_dtype, dspacing_from_energy_dtype, Q_element_dtype,
+    fun e t l1 l2 => ⟨(Props.C05.result_dtype_lengths e t l1 l2).1, (Props.C05.result_dtype_lengths e t l1 l2).2.1⟩,
+    fun w => ⟨(Props.C08.q_result_dtype w).1, (Props.C08.q_result_dtype w).2.1⟩,
+    propagate_times_dtype,
+    fun _ _ _ _ _ => ⟨_, rfl⟩, fun _ _ _ _ _ => ⟨_, rfl⟩, fun _ _ _ _ _ _ _ => ⟨_, rfl⟩, fun _ _ _ _ _ _ => ⟨_, rfl⟩⟩
+
+end dtypes
 
 end ScnVerif.Props.C07
